@@ -10,8 +10,12 @@ about the individual rewrites, on the evaluator model, for every state, environm
   and state as the original (with one unit of fuel less where a node disappeared);
 * Constant_Fold: the value the pass precomputes is the value the unfolded expression computes, and it is
   not folded when the operation would raise (division by zero);
-* Block, For_Loop, Assign_Decl, Return, Unused_Return: the side conditions under which the pass fires
-  (structural); their semantic equivalence is NOT proved (the states differ in saved call parameters,
+* the three EXACT passes (Partial_Fold, If, Dead_Code on constants) applied bottom-up to the WHOLE tree and to every function body
+  preserve every evaluation, outcome and state, for every program, state satisfying the literal invariant and fuel
+  [exact_passes_preserve_evaluation, optimized_program_same_result] — a seventh induction over the evaluator (Lemmas/ChaiXOptMain),
+  on top of "fuel is only fuel" [result_independent_of_fuel, sixth induction, Lemmas/ChaiRunMono];
+* Block, For_Loop, Assign_Decl, Return, Unused_Return, Constant_Fold and Dead_Code on no-ops: the side conditions under which the pass
+  fires (structural) and the value folded; their whole-program semantic equivalence is NOT proved (the states differ in saved call parameters,
   scope depth of cached lookups and allocation order) and is decided by the differential check only.
 
 Hypothesis `Agree L s`: the constants of the program hold their literal values in state `s` (that this
@@ -19,6 +23,8 @@ stays true is property C08).
 -/
 import ChaiVerif.Model.Chai.Opt
 import ChaiVerif.Lemmas.ChaiShape
+import ChaiVerif.Lemmas.ChaiXOptMain
+import ChaiVerif.Props.C08
 namespace ChaiVerif.C02
 open ChaiVerif.Chai
 
@@ -358,5 +364,62 @@ example : (optimize [.int 1, .int 2] (.bin .add (.const 0) (.const 1))).1 = .con
 example : (optimize [.bool false] (.ifN (.const 0) (.block [.brk]) .noop)).1 = .noop := rfl
 example : (optimize [.int 0, .int 3] (.forN (.eq .assign (.varDecl 1) (.const 0)) (.bin .lt (.id 0 1) (.const 1)) (.pre .inc (.id 1 1)) (.block [.id 2 1]))).1
     = .cfor 1 0 3 (.id 2 1) := rfl
+
+/-! ### fuel is only fuel; the exact passes on whole programs -/
+
+/-- **the result of an evaluation does not depend on the fuel the model was given**: any two amounts of fuel that both suffice give
+    the same outcome and the same state (so "for all fuel" statements are about one semantics) -/
+theorem result_independent_of_fuel (ρ : List FunDef) (f g : Nat) (j : Job) (s : St)
+    (hf : (run ρ f j s).1 ≠ .oof) (hg : (run ρ g j s).1 ≠ .oof) : run ρ f j s = run ρ g j s := by
+  rcases Nat.le_total f g with h | h
+  · obtain ⟨k, rfl⟩ := Nat.exists_eq_add_of_le h
+    exact (run_le ρ f k j s).resolve_left hf
+  · obtain ⟨k, rfl⟩ := Nat.exists_eq_add_of_le h
+    exact ((run_le ρ g k j s).resolve_left hg).symm
+
+/-- **The exact passes preserve every evaluation.**  `xopt` applies Partial_Fold, If and Dead_Code (constants) bottom-up to every node
+    and `xoptFun` to every function body and guard.  From any state in which the literals are intact (C08: every reachable state),
+    whenever the original evaluation finishes with fuel `f`, the optimized one finishes with the same fuel, the same outcome and the
+    SAME state (heap, objects, scopes, saved parameters, output, callback log, ...). -/
+theorem exact_passes_preserve_evaluation (ρ : List FunDef) (L : Lits) (f : Nat) (j : Job) (s : St)
+    (hl : Lit L.length L s) (hj : JobOK L.length j) (hdone : (run ρ f j s).1 ≠ .oof) :
+    run (ρ.map (xoptFun L)) f (xoptJob L j) s = run ρ f j s :=
+  ((xopt_sound ρ L f j s hl hj).resolve_left hdone).symm
+
+/-- whole programs, from the initial state -/
+theorem optimized_program_same_result (ρ : List FunDef) (L : Lits) (prog : List Node) (f : Nat)
+    (hdone : (run ρ f (.seq prog) (St.init L)).1 ≠ .oof) :
+    run (ρ.map (xoptFun L)) f (.seq (xoptList L prog)) (St.init L) = run ρ f (.seq prog) (St.init L) :=
+  exact_passes_preserve_evaluation ρ L f (.seq prog) (St.init L) (C08.init_is_lit L) trivial hdone
+
+/-- the exact passes are the optimizer's own: Partial_Fold is used as is; Dead_Code's keepers differ only on no-ops; the If pass
+    differs only when a branch is a bare reference declaration (which the parser cannot produce) -/
+theorem ifPassX_is_ifPass (L : Lits) (c t e : Node) (ht : isRefDecl t = false) (he : isRefDecl e = false) :
+    ifPassX L (.ifN c t e) = ifPass L (.ifN c t e) := by
+  cases c <;> simp only [ifPassX, ifPass]
+  split <;> simp_all
+
+theorem keepersC_is_keepers : ∀ (xs : List Node), (∀ x ∈ xs, x ≠ .noop) → keepersC xs = keepers xs := by
+  intro xs
+  induction xs with
+  | nil => intro _; rfl
+  | cons x rest ih =>
+    intro h
+    cases rest with
+    | nil => rfl
+    | cons y ys =>
+      have hx : x ≠ .noop := h x (by simp)
+      have hr := ih (fun z hz => h z (List.mem_cons_of_mem _ hz))
+      unfold keepersC keepers
+      have : isDead x = isConstNode x := by cases x <;> first | rfl | exact absurd rfl hx
+      rw [this, hr]
+
+/-- non-vacuity: the passes do rewrite — `if (true) { 1 + x } else { 2 }; 5; x * 3` inside a block loses the conditional, folds
+    the right constant and drops the dead constant -/
+example :
+    xopt [.bool true, .int 1, .int 2, .int 5, .int 3]
+      (.block [.ifN (.const 0) (.bin .add (.id 0 7) (.const 1)) (.const 2), .const 3, .bin .mul (.id 1 7) (.const 4)])
+    = .block [.foldR .add (.id 0 7) 1, .foldR .mul (.id 1 7) 4] := by
+  simp [xopt, xoptList, xNode, partialFold, ifPassX, deadConst, keepersC, isConstNode, isIntLit, litOf, isRefDecl]
 
 end ChaiVerif.C02
